@@ -2441,7 +2441,15 @@ pub fn handle_fakekey_action<'a, const C: usize, const R: usize, T>(
             layout.event(Event::Release(x, y));
         }
         FakeKeyAction::Toggle => {
-            match states_has_coord(&layout.states, x, y) {
+            // An operation on the key that is still queued decides, once it is processed, whether
+            // the key is pressed; `states` does not show it yet. Without this, two toggles before
+            // the next tick would both press.
+            let pressed = match layout.last_queued_event((x, y)) {
+                Some(Event::Press(..)) => true,
+                Some(Event::Release(..)) => false,
+                None => states_has_coord(&layout.states, x, y),
+            };
+            match pressed {
                 true => layout.event(Event::Release(x, y)),
                 false => layout.event(Event::Press(x, y)),
             };
